@@ -14,9 +14,10 @@ ID = 'C16'
 LEAN_PROOFS = ['Proofs.C16']
 GEN_ITEMS = []
 RULE = ('op lines = (operation, ring k, coefficient vectors, index expression / value); vectors of dims 0..4 over k in {1,2,3} '
-        'enumerated (all of them for unary/index operations, all unordered pairs for k=1,2 and dims<=3 for k=3 in the thorough tier, a seeded '
-        'fraction in quick), k in {0,8,32,64} and random k in 1..64 with dims to 20 seeded; distinct lines; non-trivial = the implementation '
-        'returned a value (not an exception) for the main operation')
+        'enumerated: all of them for unary / re-chunking operations; binary operators by poly.exh lines (one left operand against ALL right '
+        'operands of one dimension): every ordered pair for k=1,2 and every pair except (dim 4, dim 4) for k=3 in the thorough tier - those 16.7M '
+        'pairs are taken for 2% of the left operands -, a seeded fraction in quick; k in {0,8,32,64} and random k in 1..64 with dims to 20 seeded; '
+        'distinct lines; non-trivial = the implementation returned a value (not an exception) for the main operation')
 TRUSTED = ['CPython int/list/slice semantics (Model.Py) are modelled, validated by enumeration in this stream',
            'bitwise operators on the ring Z use a two\'s-complement window in the model (Model.Poly.intBitOp); tied to Python ints by this stream and to Spec.Poly.land/lor/lxor by the executable echo']
 ASSUMPTIONS = ['python -O (asserts stripped) is out of scope',
@@ -515,9 +516,9 @@ def cases(tier, rng):
             for y in vs[i:]:
                 dx, dy = len(x), len(y)
                 if k == 1: keep = True
-                elif k == 2: keep = (rng.random() < 0.04) if quick else True
+                elif k == 2: keep = (rng.random() < 0.12) if quick else True
                 else:
-                    if quick: keep = rng.random() < (0.3 if dx + dy <= 3 else 0.0004)
+                    if quick: keep = rng.random() < (0.5 if dx + dy <= 3 else 0.001)
                     else: keep = True if max(dx, dy) <= 2 else (rng.random() < (0.05 if max(dx, dy) == 3 else 0.004))
                 if not keep: continue
                 shape = 'empty-empty' if dx == dy == 0 else 'one-empty' if 0 in (dx, dy) else 'equal' if dx == dy else 'unequal'
@@ -528,16 +529,19 @@ def cases(tier, rng):
             for dy in range(5):
                 for o in BOPS:
                     if quick and rng.random() > (0.2 if k == 1 else 0.02 if k == 2 else 0.0015 if dy == 4 else 0.004): continue
+                    # thorough: everything except the 16.7M pairs of two dim-4 vectors over Z/8, of which 2% of the left operands
+                    # (each against all 4096 right operands) are taken
+                    if not quick and k == 3 and len(x) == 4 and dy == 4 and rng.random() > 0.02: continue
                     yield 'poly.exh %s %s %d' % (o, pt(k, x), dy), 'exh.k%d.dy%d' % (k, dy)
     # 3. every index expression on dims 0..4 (values distinct so that order is visible)
     for k, xs in ((3, [[], [5], [1, 6], [3, 1, 4], [7, 2, 5, 1]]), (8, [[200, 7, 99], [1, 2, 3, 4, 250]]), (0, [[-3, 7, 1 << 40], []])):
         for x in xs:
-            yield from index_lines(k, x, rng, 'index.k%d.' % k, 0.08 if quick else 0.6)
+            yield from index_lines(k, x, rng, 'index.k%d.' % k, 0.2 if quick else 0.6)
     if not quick:
         for k in (1, 2):
             for x in all_vectors(k, 3): yield from index_lines(k, x, rng, 'index.k%d.' % k, 0.02, span=len(x) + 1)
     # 4. wide rings, the ring Z, dims to 20
-    n = 250 if quick else 4000
+    n = 400 if quick else 4000
     yield from random_lines(rng, n, [0, 8, 32, 64])
     yield from random_lines(rng, n, [0, 8, 32, 64] + [rng.randrange(1, 65) for _ in range(12)])
     for k in range(1, 65):
